@@ -72,7 +72,7 @@ theorem wly_days (r : Rule) (p : Inst) (nti : Nat) (hy2 : p.y ≤ 2099) {y0 m0 d
       rw [e, (week_off _ _ o ho'.1).1]; exact ho'.2
 
 /-- what the week loop looks at is an instance of the rule -/
-theorem wly_inst (r : Rule) (p : Inst) (nti : Nat) (hr : WfRule r) (hp : WfInst p) (hs : SeedOk r p)
+theorem wly_inst (r : Rule) (p : Inst) (nti : Nat) (hr : WfRule r) (hp : WfInst p)
     (hy2 : p.y ≤ 2099) {y0 m0 d0 : Nat} (hv0 : VD y0 m0 d0) (hl0 : LowOk y0 m0)
     (hback : Carry y0 m0 (d0 + wlyBack r p) p.y p.m p.d)
     (j o ty tm td : Nat) (ho : o ∈ offs 8 (wlyIncs r) 0)
@@ -84,7 +84,7 @@ theorem wly_inst (r : Rule) (p : Inst) (nti : Nat) (hr : WfRule r) (hp : WfInst 
   obtain ⟨hv, -, -, -⟩ := hc.props hv0.1 hv0.2.1 hD
   have hnd := ndom_eq' hv.1 hv.2.1 (lowOk_carry hc hv0.1 hv0.2.1 hD hl0) hty
   obtain ⟨m1, m2, m3⟩ := mem_timesIx ht
-  obtain ⟨hk, hte⟩ := exp_of_enum (x := ⟨ty, tm, td, t.2.1, t.2.2.1, t.2.2.2, p.ms⟩) hr hp hs m1 m2 m3
+  obtain ⟨hk, hte⟩ := exp_of_enum (x := ⟨ty, tm, td, t.2.1, t.2.2.1, t.2.2.2, p.ms⟩) hr hp m1 m2 m3
   have hmon := (monMask_bit r.mon hr.mon.2 tm hv.1 hv.2.1).1 hbit
   obtain ⟨w1, w2, -⟩ := wly_days r p nti hy2 hv0 hl0 hback j o ty tm td ho hc hty
   exact ⟨⟨hv.1, hv.2.1, hv.2.2.1, by rw [← hnd]; exact hv.2.2.2, rfl, hk⟩, ⟨j, w1⟩, w2, hmon, hte⟩
@@ -93,7 +93,7 @@ theorem week_split (n : Int) : n = weekStart n + ((wdayOf n - 1 : Nat) : Int) :=
   unfold weekStart wdayOf; omega
 
 /-- every instance is a day the week loop looks at, in a month of BYMONTH, with a time of the enumeration -/
-theorem wly_inst_conv (r : Rule) (p : Inst) (nti : Nat) (hr : WfRule r) (hp : WfInst p) (hs : SeedOk r p)
+theorem wly_inst_conv (r : Rule) (p : Inst) (nti : Nat) (hr : WfRule r) (hp : WfInst p)
     (hy2 : p.y ≤ 2099) {y0 m0 d0 : Nat} (hv0 : VD y0 m0 d0) (hl0 : LowOk y0 m0) (hy0 : y0 ≤ 2099)
     (hback : Carry y0 m0 (d0 + wlyBack r p) p.y p.m p.d) (x : Inst) (hx : WeeklyInst r p x)
     (hxy : x.y * 12 + x.m ≤ 25201) :
@@ -145,7 +145,7 @@ theorem wly_inst_conv (r : Rule) (p : Inst) (nti : Nat) (hr : WfRule r) (hp : Wf
     (by rw [hday, Int.natCast_add, Int.natCast_add, hcast]; omega)
   subst e1 e2 e3
   refine ⟨k, o, ho, hc, (monMask_bit r.mon hr.mon.2 _ s1 s2).2 hmon, hk0, ?_⟩
-  obtain ⟨a, b, c⟩ := enum_of_exp hp hs s6 hte
+  obtain ⟨a, b, c⟩ := enum_of_exp hp s6 hte
   obtain ⟨iH, aH⟩ := mem_getElem? a
   obtain ⟨iM, aM⟩ := mem_getElem? b
   obtain ⟨iS, aS⟩ := mem_getElem? c
